@@ -137,7 +137,7 @@ static int run_child(const cfg_t *c, uint64_t *he, uint64_t *hd, int *ce, int *c
 	char cmd[600], exe[400]; ssize_t n = readlink("/proc/self/exe", exe, sizeof exe - 1);
 	if (n <= 0) return -1;
 	exe[n] = 0;
-	snprintf(cmd, sizeof cmd, "OFH_CUR= OFH_CHILD='%u %u %u %u' ASAN_OPTIONS=detect_leaks=0 '%s' C05child 2>/dev/null", c->k, c->r, c->N1, c->seed, exe);
+	snprintf(cmd, sizeof cmd, "OFH_CUR= OFH_CHILD='%u %u %u %u' ASAN_OPTIONS=detect_leaks=0 timeout -s KILL 120 '%s' C05child 2>/dev/null", c->k, c->r, c->N1, c->seed, exe);
 	FILE *f = popen(cmd, "r"); if (!f) return -1;
 	char line[400]; int ok = 0;
 	while (fgets(line, sizeof line, f)) { unsigned long long a, b; int x, y; if (sscanf(line, "N\tCHILD %llx %llx %d %d", &a, &b, &x, &y) == 4) { *he = a; *hd = b; *ce = x; *cd = y; ok = 1; } }
@@ -184,7 +184,11 @@ static void config_case(uint32_t k, uint32_t r, uint32_t N1, uint32_t seed, int 
 		rep_count("configs_observed_white_box", 2);
 		if (with_child) {
 			uint64_t he = 0, hd = 0; int xe = -2, xd = -2;
-			if (run_child(&c, &he, &hd, &xe, &xd)) rep_fatal("C05: could not run the fresh-process child");
+			if (run_child(&c, &he, &hd, &xe, &xd)) {
+				/* this process built the matrix, a fresh one died or made no progress in 300 s on the same parameters */
+				rep_viol("history-dependent-matrix", "a freshly exec'ed process does not build the matrix for k=%u r=%u N1=%u seed=%u (died or hung), this process did", k, r, N1, seed);
+				he = rows_hash(&E); hd = rows_hash(&D); xe = ce; xd = cd;
+			}
 			if (he != rows_hash(&E) || hd != rows_hash(&D)) rep_viol("history-dependent-matrix", "matrix built in this process (history mode %d) differs from the one built by a fresh process", mode);
 			if (xe != ce || xd != cd) rep_viol("history-dependent-matrix", "null-claim differs from a fresh process (%d/%d vs %d/%d)", ce, cd, xe, xd);
 			rep_count("configs_compared_with_fresh_process", 1);
@@ -233,6 +237,36 @@ static int worker(void)
 				}
 			}
 			if (r > 10) config_case(k, r, r, fixed_seeds[(k + r) % 4], (int)((k + r) % 3), &rng, 0);   /* N1 = r */
+		}
+	}
+	if (g_for15) {
+		/* the number of extra entries (rows topped up to weight 2) is about 2(n-k) - N1*k at low rates: put it on and around the
+		 * 8-bit and 16-bit boundaries, where a narrowed counter or flag would go wrong */
+		static const uint32_t tk[] = { 8, 16, 32, 64, 100 }; static const uint32_t targets[] = { 1, 2, 255, 256, 257, 511, 512, 513, 1024, 65535, 65536, 65537 };
+		for (unsigned i = 0; i < sizeof tk / sizeof tk[0]; i++, unit++) {
+			rep_unit(unit);
+			if (!rep_unit_mine(unit)) continue;
+			rng_t rng = rng_make(g_run.seed, 560, i);
+			for (uint32_t N1 = 4; N1 <= 6; N1 += 2) for (unsigned t = 0; t < sizeof targets / sizeof targets[0]; t++) {
+				uint32_t est = (targets[t] + N1 * tk[i]) / 2;
+				for (int d = -2; d <= 2; d++) {
+					uint32_t r = est + (uint32_t)d; if (r < N1 || tk[i] + r > 50000) continue;
+					if (!T && targets[t] > 60000 && d != 0 && d != 1) continue;
+					config_case(tk[i], r, N1, fixed_seeds[(t + i) % 4], (int)((t + i) % 3), &rng, 0);
+				}
+			}
+		}
+		/* random low-rate family */
+		for (int u = 0; u < 16; u++, unit++) {
+			rep_unit(unit);
+			if (!rep_unit_mine(unit)) continue;
+			rng_t rng = rng_make(g_run.seed, 570, (uint64_t)u);
+			for (int s = 0; s < (T ? 1500 : 150); s++) {
+				uint32_t k = 1 + rng_below(&rng, 128), N1 = 4 + 2 * rng_below(&rng, 4), r = N1 + rng_below(&rng, 1024);
+				if (rng_below(&rng, 8) == 0) N1 = 3 + 2 * rng_below(&rng, 3);
+				if (N1 > r) N1 = r;
+				config_case(k, r, N1, 1 + (uint32_t)(rng_u64(&rng) % 2147483646u), (int)rng_below(&rng, 3), &rng, 0);
+			}
 		}
 	}
 	/* larger configurations */
